@@ -1,0 +1,21 @@
+//go:build verif
+// +build verif
+
+package main
+
+// Contracts for the deductive verifier in /verif (comment-only file, build tag `verif`).
+
+// the configuration as a function of the key
+//@ fun cfg(v *viper.Viper, key string) string
+//@ trusted func (*github.com/spf13/viper.Viper).GetString(v *viper.Viper, key string) (r string)
+//@   ensures r == cfg(v, key)
+//@   pure
+
+// C16: the credential store is built from the configured values: the static pair from the username and the password key, in
+// that order; the file store from the configured path.
+//@ func getAuthHandler(ctx context.Context, rpcDialer rpc.Dialer, config *viper.Viper) (h auth.AuthenticationHandler, err error)
+//@   requires config != nil
+//@ callsite getAuthHandler -> auth.StaticHandler(username string, password string)
+//@   requires [C16] username == cfg(config, "authentication-provider-static-username") && password == cfg(config, "authentication-provider-static-password")
+//@ callsite getAuthHandler -> auth.FileHandler(path string)
+//@   requires [C16] path == cfg(config, "authentication-provider-file-path")
